@@ -5,7 +5,7 @@ namespace GA.Drv.HeapE
 open GA.Drv GA.Heap GA.Own GA.Ops
 
 def layoutOf : String → Nat × Nat
-  | "u32" => (4, 4) | "u64" => (8, 8) | "b3" => (3, 1) | "tr" => (8, 8) | "z8" => (0, 8) | _ => (0, 1)
+  | "u32" => (4, 4) | "u64" => (8, 8) | "b3" => (3, 1) | "tr" => (8, 8) | "dc" => (8, 8) | "z8" => (0, 8) | _ => (0, 1)
 
 def answer (kv : KV) (bg : Nat → Nat → Nat → (Nat → Option Id) → Bool → BoxedOut := boxedGenerate)
     (only : Bool := false) : String :=
@@ -72,7 +72,8 @@ def answer (kv : KV) (bg : Nat → Nat → Nat → (Nat → Option Id) → Bool 
       s!"res=ok items=[{showNats (arr.map idOf)}]{showDrops arr}"
     | "boxed_collect" =>
       let script : List (Option Id) := src.map some
-      let r := collectOp true true n (0, some l) ⟨script, 0, none⟩
+      -- the harness source is `iter::from_fn` (size hint `(0, None)`), optionally panicking on its k-th call
+      let r := collectOp true true n (0, none) ⟨script, 0, OwnE.faultIdx fault "poll"⟩
       let res := match r.2 with | .ok _ => "ok" | .err => "err" | .panicked => "panicked"
       s!"res={res} items=[{showNats (r.2.ids.map idOf)}]{showDrops (drops r.1 ++ r.2.ids)}"
     | "box_map" =>
